@@ -133,7 +133,13 @@ class LenaSplit(object):
             if hasattr(seq, "_set_context"):
                 # can raise LenaKeyError if some context
                 # formatting keys are missing.
-                seq._set_context(deepcopy(context))
+                try:
+                    seq._set_context(deepcopy(context))
+                except exceptions.LenaKeyError:
+                    # the error is kept in that sequence
+                    # (it will be raised in _get_context);
+                    # other sequences must still get their context.
+                    pass
         # we don't track whether all contexts could be set here,
         # because otherwise an exception will raise in _get_context.
 
